@@ -14,7 +14,7 @@ SKIP_FNS = ("parser::ParserState::handle_unknown_taggedstruct_tag", "parser::Par
 HUT = "parser::ParserState::<'a>::handle_unknown_taggedstruct_tag"
 
 
-CURSOR_OPS = re.compile(r"parser::(ParserState::(get_token|undo_get_token|set_tokenpos|get_tokenpos|peek_token|expect_token)|TokenIter::(next|back|peek))$")
+CURSOR_OPS = re.compile(r"parser::(ParserState::(get_token|undo_get_token|set_tokenpos|peek_token|expect_token)|TokenIter::(next|back|peek))$")
 
 
 def skip_table(prog):
